@@ -103,6 +103,26 @@ def run(ctx):
             queries(u, ref, hist, op, out, None)
             ctx.bump('op=' + op[0])
         if k < 2: ctx.sample({'history': [list(map(str, h)) for h in hist]})
+    clash_histories(ctx, queries)
+
+def clash_histories(ctx, queries):
+    """oracle only (the heap model keeps style names fixed; clashes are renamed by the real code: C11): styles with one and the
+    same name added, removed, moved and re-added through the API - after every step the lookups must agree with the tree"""
+    from odf import style
+    for k in range(150 if ctx.quick else 3000):
+        u = D.Universe(True, extra_free=[style.Style(name='N1', family='text'), style.Style(name='N1', family='paragraph'), style.Style(name='MN1', family='text')])
+        f = u.free_ids
+        stys = [f[6], f[8], f[9], f[10]]
+        homes = [u.id_of(u.doc.styles), u.id_of(u.doc.automaticstyles), u.id_of(u.doc.text)]
+        hist = []
+        for _ in range(ctx.rng.randint(2, 9)):
+            r = ctx.rng.random(); p = ctx.rng.choice(homes[:2] if r < 0.9 else homes); c = ctx.rng.choice(stys)
+            op = ('append', p, c) if r < 0.45 else ('remove', p, c) if r < 0.8 else ('insert', p, c, None) if r < 0.9 else ('addelement', p, c)
+            if not D.legal(u, op): continue
+            out = D.apply_real(u, op); hist.append(op); u.snapshot()
+            queries(u, None, [str(h) for h in hist], op, out, None)
+            ctx.bump('clash-op=' + op[0])
+    ctx.exhaustive.append('name-clash histories (oracle only): four style:style elements, three of them created with the same name')
 
 def replay(ctx, case):
     import json
